@@ -13,4 +13,4 @@ RULE = ('invariants (unique nicks under case mapping, valid names, symmetric mem
 def run(tier):
     mcdrive.run_mc('C14', tier, ['C14'], ASSUME, RULE, deep_quick=3)
 
-MANIFEST = {'engine': 'mc', 'level': 'model_checking', 'technique': 'explicit-state BFS over the real IRCServer with an invariant walk (in-package) on every reached state, its snapshot round trip, and NAMES/LIST probes', 'text': 'The invariants of C14 are evaluated on the real data structures after every transition of the bounded exploration and again on the Marshal/Unmarshal image of every changed state; NAMES and LIST are probed on every channel of every changed state and compared with the membership relation.', 'note': 'Same bounds as C06. SVSNICK only onto free nicknames; limits count as exceeded only when an entry makes the count grow.'}
+MANIFEST = {'engine': 'mc', 'level': 'model_checking', 'technique': 'explicit-state BFS over the real IRCServer with an invariant walk (in-package) on every reached state, its snapshot round trip, and NAMES/LIST probes', 'text': 'The invariants of C14 are evaluated on the real data structures after every transition of the bounded exploration and again on the Marshal/Unmarshal image of every changed state; NAMES and LIST are probed on every channel of every changed state and compared with the membership relation.', 'note': 'Same bounds as C06. SVSNICK only onto free nicknames; limits count as exceeded only when an entry makes the count grow. The invariants are also checked on a twin that was restored from a snapshot of the pre-state.'}
